@@ -103,4 +103,10 @@ theorem decode_encode' (m : Msg) (bs rest : Bytes) (h : encode m = .ok bs) :
   · cases h; exact decode_encodeBytes m rest _
   · cases h
 
+theorem wfSettingBool_iff (s : GroupSetting) : wfSettingBool s = true ↔ WFSetting s := by
+  cases s <;> simp [wfSettingBool, WFSetting]
+
+theorem wfBool_iff (m : Msg) : wfBool m = true ↔ WF m := by
+  simp [wfBool, WF, wfSettingBool_iff]
+
 end PyAirtouch.Lemmas.At4X2A
